@@ -6,7 +6,7 @@ Model of /repo/io/fasta/fasta.go (as it is after the fixes 99317d2: `scanner.Buf
 
   ParseConcurrent = `scanLines` (bufio.Scanner with the default ScanLines split function and a token
                     limit) → `parseLines` (the five-way switch with the `start` flag and the final
-                    flush) → one `send` per record, then `close`   (`producer`)
+                    flush); the goroutine's sends and its close: `loopOps` / `producer`
   Parse           = what a `for range` consumer collects from a 1000-slot channel (`parseCollect`);
                     by Props.C13.stream_* every schedule yields `parse text`
   Build           = `build`
@@ -93,9 +93,26 @@ def build (rs : List Rec) : Str :=
 
 /-! ### streaming -/
 
-/-- what the ParseConcurrent goroutine does to its channel (channel 0) -/
-def producer (maxToken : Nat) (s : Str) : List (Chan.Op Rec) :=
-  (parse maxToken s).map (Chan.Op.send 0) ++ [Chan.Op.close 0]
+/-- The ParseConcurrent goroutine itself, statement by statement, as the channel operations it performs
+while it consumes the scanner's tokens (channel 0 = `sequences`): the same five-way `switch` as `parseLines`,
+but instead of returning records it SENDS — `sequences <- newFasta` at every `>` line that is not the first,
+with the name and the joined `sequenceLines` accumulated so far — and after the loop sends the last record and
+does `close(sequences)`.  That these sends are exactly the records of `parse`, in order, followed by the one
+close is `Fasta.loopOps_eq` (Lemmas/Fasta.lean), not a definition. -/
+def loopOps : Bool → Str → List Str → List Str → List (Chan.Op Rec)
+  | _, name, acc, [] => [Chan.Op.send 0 ⟨name, acc.reverse.flatten⟩, Chan.Op.close 0]
+  | start, name, acc, line :: rest =>
+    match line with
+    | [] => loopOps start name acc rest
+    | c :: tl =>
+      if blankLine (c :: tl) then loopOps start name acc rest
+      else if c = ';' then loopOps start name acc rest
+      else if c ≠ '>' then loopOps start name (line :: acc) rest
+      else if !start then Chan.Op.send 0 ⟨name, acc.reverse.flatten⟩ :: loopOps false tl [] rest
+      else loopOps false tl acc rest
+
+/-- what the ParseConcurrent goroutine does to its channel: the loop above on the scanner's tokens -/
+def producer (maxToken : Nat) (s : Str) : List (Chan.Op Rec) := loopOps true [] [] (scanLines maxToken s)
 
 /-- the system: ParseConcurrent on `s` with a channel of capacity `c` -/
 def system (maxToken c : Nat) (s : Str) : Chan.Sys Rec := Chan.init (fun _ => c) (producer maxToken s)
